@@ -27,7 +27,8 @@ SECTION_TITLES = ["Alpha", "~ Someday", "} brace", "Zed", "alpha | beta", "Beta 
 
 def gen_c09_page(rng, refs=False):
     """Pages whose notes share tags from small pools, so that group keys collide, nest and prefix each other."""
-    lines = ["# Title of page %s" % rng.choice(["#pa", "", "@pc", "+pp #pa"]), ""]
+    # also: the same NAME under two tag kinds in one scope (+pa #pa)
+    lines = ["# Title of page %s" % rng.choice(["#pa", "", "@pc", "+pp #pa", "+pa #pa @pa"]), ""]
 
     def item():
         kind = rng.choice(["-", "-", "o", "o", "x", "~", "<", ">"])
@@ -77,7 +78,7 @@ def gen_c09_page(rng, refs=False):
         prev = lvl
         lines.append(pagegen.RULERS[lvl] + " " + rng.choice(SECTION_TITLES) + rng.choice(["", "", " #sa", " 2024-03-0%d" % rng.randint(1, 9),
                                                     # header tags that are proper prefixes of tags items carry themselves
-                                                    " +p1", " @work", " %bob #a"]))
+                                                    " +p1", " @work", " %bob #a", " @sa #sa", " %work @work"]))
         lines.append("")
         for _ in range(rng.randint(1, 2)):
             block()
@@ -87,7 +88,7 @@ def gen_c09_page(rng, refs=False):
 def gen_dir(rng):
     return {name: gen_c09_page(rng)
             for name in rng.sample(["alpha.zo", "beta.zo", "sub/gamma.zo", "z9.zo", "a.zo", "a.zo.d/x.zo", "todo.zo", "tod.zo", "sub/quiz.zo",
-                                    "memo.zo"], rng.randint(2, 4))}
+                                    "memo.zo", "log.zo", "log2.zo", "logA.zo"], rng.randint(2, 4))}
 
 
 def titles_of(note):
